@@ -32,6 +32,11 @@ P = {
   text='Necessary clauses only (scope discipline): each payload call runs in a child context created per invocation; lambdas evaluate in a child of their definition context; context-writing library functions write only into their own injected context. Equality with a reference interpreter is NOT decided.',
   note=TRUST + 'decides the named structural clauses, not the values computed.',
   ref='6/C04'),
+ 'C05': dict(
+  tech='resolution-skeleton checks: error-class control dependence on the receiver test, must-pass-through of value_type.check for every argument slot, loop-exit (first layer wins), handler typing, laziness agreement scope; plus the shared sweep / kind-predicate / layer-walk rules',
+  text='Necessary structural clauses of the documented 8-step procedure, NOT its input/output relation: each resolution error class is raised on the right side of the receiver test and at the right stage (unknown iff the collection is empty); in both phases every argument value passes value_type.check and failing it is the only thing that excludes an overload; every slot handed to the payload comes from the checker; the layer loop is left at the first layer with a winner; only ArgumentException excludes an overload; the agreed lazy set spans all layers and is keyed like the evaluation sweep; eager arguments are evaluated in one sweep shared by all candidates; kind predicate; nearest-first layer walk stopping at exclusive layers. Which overload the arity/keyword/default arithmetic of map_args and the specificity comparison select is not decided.',
+  note=TRUST + 'necessary clauses only; order independence of the winner is decided under C06.',
+  ref='7 and Appendix E'),
  'C06': dict(
   tech='order-taint analysis of loops over unordered overload sets on the resolution path',
   text='Sufficient condition: every loop on the resolution path that iterates an unordered collection carries state only through order-insensitive forms; order-tainted lists are only used order-insensitively. If it passes, resolution cannot depend on enumeration order for any overload family.',
@@ -59,27 +64,27 @@ P = {
   ref='6/C10'),
  'C11': dict(
   tech='evaluation-site enumeration + control-dependence / at-most-once path analysis of lazy operands',
-  text='Decides: argument evaluation sites sit in one sweep outside candidate loops and are unreachable from matching code; the functions named in the statement declare their operands lazy and call the unselected operand only under the selecting test. Full trace equality with an order model is not decided.',
+  text='Decides: argument evaluation sites sit in one sweep outside candidate loops and are unreachable from matching code; the lazy argument set is keyed by index / call keyword like the sweep; the functions named in the statement declare their operands lazy and call the unselected operand only under the selecting test; per-element callables are not applied from (anything reachable from) comparison methods. Full trace equality with an order model is not decided.',
   note=TRUST + 'necessary clauses.',
   ref='6/C11'),
  'C12': dict(
-  tech='declaration-level checks: keyword-name language, declared (AST) vs effective (reflected) registry diff, kind predicate def-use',
-  text='Necessary conditions at declaration level: every visible parameter has a writable, unique keyword name; the registry recovered from decorators agrees with the effective registry (name, kind, no_kwargs, parameter order, aliases, laziness); runner.call tests is_function / is_method on the right branches. Result equality across spellings is not decided.',
+  tech='declaration-level checks: keyword-name language, declared (AST) vs effective (reflected) registry diff, kind predicate def-use, bounded LALR-table simulation of argument-list shapes with abstractly interpreted actions',
+  text='Necessary conditions at declaration level: every visible parameter has a writable, unique keyword name; the registry recovered from decorators agrees with the effective registry (name, kind, no_kwargs, parameter order, aliases, laziness); runner.call tests is_function / is_method on the right branches; on the generated LALR tables every bounded pattern of value/empty positional slots is accepted and yields one entry per slot; the lazy set is keyed like the sweep. Result equality across spellings is not decided.',
   note=TRUST + 'reflection executes import-time and registration code only, never runner.call.',
   ref='6/C12'),
  'C13': dict(
   tech='iterator-linearity (consumed-at-most-once per path) analysis of iterator-admitting parameters',
-  text='One necessary clause: along every path a parameter that may hold a one-shot iterator is consumed at most once unless first re-bound to a re-iterable or an explicit cursor. Agreement with a reference model is not decided.',
+  text='One necessary clause: along every path a parameter that may hold a one-shot iterator is consumed at most once unless first re-bound to a re-iterable or an explicit cursor, and the premise that utils.memorize hands out an independent cursor per pass. Agreement with a reference model is not decided.',
   note=TRUST + 'one clause only.',
   ref='6/C13'),
  'C14': dict(
   tech='laziness / short-circuit shape analysis of every streaming payload and of the limiter plumbing',
-  text='Decides laziness of every streaming operator named in the statement: the source is consumed only inside yielding loops or by lazy builtins, never by an eager consumer; searches return from inside the loop. The exact "+1" of the bound is arithmetic and not decided.',
+  text='Decides laziness of every streaming operator named in the statement: the source is consumed only inside yielding loops or by lazy builtins, never by an eager consumer; searches return from inside the loop; the wrapper classes of the plumbing do not answer len/truth/membership by reading the source; uncatalogued library callees count as readers. The exact "+1" of the bound is arithmetic and not decided.',
   note=TRUST + 'itertools/map/filter/zip laziness.',
   ref='6/C14'),
  'C15': dict(
   tech='type-level overload kind-matrix + body-shape checks of operator wrappers',
-  text='Type-level: which scalar kinds each operator overload admits (bool never as a number, null rows complete, unrelated kinds unmatched), ordering siblings agree, null truth table constants, wrappers return the Python operation of their symbol, int division uses // and %. Python\'s own int/float/str semantics are the trusted base for the algebraic laws.',
+  text='Type-level: which scalar kinds each operator overload admits (bool never as a number, null rows complete, unrelated kinds unmatched), ordering siblings agree, null truth table constants, wrappers return the Python operation of their symbol, the number x number and str x str overloads and =/!= ARE the plain Python operation, int division uses // and %. Python\'s own int/float/str semantics are the trusted base for the algebraic laws.',
   note=TRUST + 'Python integer/float/str semantics.',
   ref='6/C15'),
  'C16': dict(
@@ -99,7 +104,7 @@ P = {
   ref='6/C18'),
  'C19': dict(
   tech='API-conformance lints: stdlib attribute resolution, re.Match API kinds, sibling-body symmetry',
-  text='Necessary API-conformance clauses: every stdlib attribute referenced exists; match-object API is used with indices/names (not values) and iteration arity matches; sibling functions differ only in their documented direction/polarity. Agreement with a reference model is not decided.',
+  text='Necessary API-conformance clauses: every stdlib attribute referenced exists; match-object API is used with indices/names (not values) and iteration arity matches; sibling functions differ only in their documented direction/polarity; getattr on a library module with names from a constant table resolves for every name. Agreement with a reference model is not decided.',
   note=TRUST + 'the interpreter\'s stdlib modules are inspected for attribute existence only.',
   ref='6/C19'),
  'C20': dict(
@@ -110,7 +115,6 @@ P = {
 }
 
 NA = {
- 'C05': 'Input/output relation of an eight-step decision procedure over all overload families and calls: no structural condition whose truth is visible in the shape of map_args/choose_overload beyond the sub-clauses already decided under C06 (order independence), C11 (single evaluation), C12 (kind predicate) and C17 (layer walk, exclusivity); a rule pinning today\'s statements would fire on behaviour-preserving edits. Static analysis (this task\'s technique family) cannot decide it; see DESIGN.md section 7.',
 }
 
 NOT_BUILT = 'check not built yet in this session (static rule designed in DESIGN.md section 6); not claimed until its checker exists and is silent on the unchanged tree'
